@@ -41,7 +41,7 @@ claimed = {
    note="message family of 12 (sizes 20..1225 bytes); poison bytes 0xD7/0xFF/0x01/seed",
    technique="explicit-state enumeration of use histories with a differential (fresh twin) oracle", ref="DESIGN.md section 2 C08"),
  "C13": dict(level="model_checking", engine="H",
-   text="breadth-first search over the real Agent to a fixed point of (model state, full private state dump): all reachable states of the 3-id table with 7 deadline values x handler, every one of the 40 operations from every state, each compared (return value, event multiset, handler identity, message pointer) with the transaction-table model; plus all operation sequences of depth 4/5 without merging, the same at depth 3/4 with handlers that call back into the agent, 0..300 and, on a ladder, up to 100000 transactions at one Collect, and Collect nested in a timeout handler",
+   text="breadth-first search over the real Agent to a fixed point of (model state, full private state dump): all reachable states of the 3-id table with 7 deadline values x handler, every one of the 43 operations from every state, each compared (return value, event multiset, handler identity, message pointer) with the transaction-table model; plus all operation sequences of depth 4/5 without merging, the same at depth 3/4 with handlers that call back into the agent or panic, 0..300 and, on a ladder, up to 100000 transactions at one Collect, and Collect nested in a timeout handler",
    note="complete for the stated alphabet; long random sequences over many ids are not attempted",
    technique="explicit-state model checking of the implementation against a reference model (BFS to fixed point, replay-to-reach)", ref="DESIGN.md section 2 C13"),
  "C04": dict(level="exploration", engine="I",
